@@ -1176,7 +1176,18 @@ fn gen_config_sweep(rng: &mut Rng, needed_it: u64, needed_sz: u64) -> Vec<(Value
     js.push(json!({"type": "combined", "models": [{"type": "query_runtime", "limit": "0:00:01", "frequency": f}, {"type": "query_runtime", "limit": "0:10:00", "frequency": f}]}));
     js.push(json!({"type": "combined", "models": [{"type": "query_runtime", "limit": "0:00:00", "frequency": 1},
         {"type": "combined", "models": [{"type": "iterations", "limit": needed_it + 9}, {"type": "query_runtime", "limit": "1:00:00", "frequency": 1}]}]}));
+    // a frequency that is not an integer >= 1 (0, negative, fractional, text, missing), at the top level, inside
+    // combined and nested: the builder must refuse it (there is no schedule `iteration % 0`); the clock of this case
+    // passes every one of these budgets, so a search under an accepted one would have to be stopped
     js.push(json!({"type": "query_runtime", "limit": "0:00:01", "frequency": 0}));
+    js.push(json!({"type": "query_runtime", "limit": "00:00:00", "frequency": 0}));
+    js.push(json!({"type": "Query_Runtime", "limit": "0:00:00", "frequency": -1}));
+    js.push(json!({"type": "query_runtime", "limit": "0:00:00", "frequency": 2.5}));
+    js.push(json!({"type": "query_runtime", "limit": "0:00:00", "frequency": "3"}));
+    js.push(json!({"type": "query_runtime", "limit": "0:00:00"}));
+    js.push(json!({"type": "combined", "models": [{"type": "iterations", "limit": needed_it + 5}, {"type": "query_runtime", "limit": "00:00:00", "frequency": 0}]}));
+    js.push(json!({"type": "combined", "models": [{"type": "solution_size", "limit": needed_sz + 5},
+        {"type": "combined", "models": [{"type": "query_runtime", "limit": "0:00:01", "frequency": 0}, {"type": "iterations", "limit": needed_it + 5}]}]}));
     let mut out: Vec<(Value, Vec<u64>)> = js.into_iter().map(|j| (j, script.clone())).collect();
     // ---- time budgets over the whole grammar of the `h:mm:ss` notation, each under clocks placed around ITS budget
     let mut texts: Vec<String> = vec!["100:00:00".into(), "999:59:59".into(), "168:00:00".into(), "1000:00:00".into(), "99:00:00".into(), "00:00:00".into()];
